@@ -501,6 +501,8 @@ impl GkrVerifier for StubGkr {
         if gkr_proof > 40 {
             return Err("implausible trace length".into());
         }
+        // the GKR proof is a prover message: it is absorbed before the randomness derived from it
+        coin.reseed(H::hash(&gkr_proof.to_le_bytes()));
         let mut r = Vec::new();
         for _ in 0..gkr_proof {
             r.push(coin.draw().map_err(|e| format!("{e}"))?);
@@ -676,6 +678,7 @@ where
     }
     fn generate_gkr_proof<E: FieldElement<BaseField = B>>(&self, main: &GTrace<B>, coin: &mut R) -> (ProverGkrProof<Self>, LagrangeKernelRandElements<E>) {
         let log_n = main.main_segment().num_rows().ilog2();
+        coin.reseed(H::hash(&log_n.to_le_bytes()));
         let r: Vec<E> = (0..log_n).map(|_| coin.draw().expect("draw")).collect();
         (log_n, LagrangeKernelRandElements::new(r))
     }
